@@ -3,6 +3,7 @@ package gh
 
 import (
 	"encoding/hex"
+	"sort"
 	"unicode/utf8"
 )
 
@@ -76,6 +77,7 @@ type NodeCfg struct {
 	ArgsD  []Tok `json:"argsd"` // ... and their descriptions
 	DynFn  bool  `json:"dynfn"` // has a dynamic completion function (echoes DynOut)
 	DynOut []Tok `json:"dynout"`
+	Sorted []Tok `json:"sorted"` // names and aliases visible at this level in Go's string order (ordering oracle)
 }
 
 type OptCfg struct {
@@ -167,6 +169,8 @@ type Res struct {
 	Comps   []Tok         `json:"comps"`
 	CompNil bool          `json:"compnil"`
 	Sorted  bool          `json:"sorted"`
+	NonDet  bool          `json:"nondet"`  // repeated executions of this very case differed (C20)
+	RawHash string        `json:"rawhash"` // hash of everything observable incl. full messages and texts
 	Exits   []int         `json:"exits"`
 	Raw     string        `json:"-"` // everything observable, for run-to-run comparison (C20)
 }
@@ -231,6 +235,18 @@ func (c *Cfg) Normalize() {
 		if n.DynOut == nil {
 			n.DynOut = []Tok{}
 		}
+	}
+	for i := range c.Nodes {
+		keys := []string{}
+		for _, oi := range c.TableOpts(i + 1) {
+			o := c.Opts[oi-1]
+			keys = append(keys, FromAtoms(o.Name))
+			for _, a := range o.Aliases {
+				keys = append(keys, FromAtoms(a))
+			}
+		}
+		sort.Strings(keys)
+		c.Nodes[i].Sorted = ToksOf(keys)
 	}
 	for i := range c.Opts {
 		o := &c.Opts[i]
